@@ -6,11 +6,14 @@
     the cyclic reorder and the renumbering), reversedColumnBuffer,
     Buffer.configure / Less / Swap / WriteRows and the row comparator of
     compare.go.  Columns are required or optional (any max definition level);
-    repeated columns are covered by the harness only. *)
+    a repeated column (Sort/Repeated.v) and the SortingWriter (Sort/Writer.v)
+    have their own sections below. *)
 From Coq Require Import List ZArith NArith Bool Arith Lia Permutation.
 From PQ Require Import Sort.Model Sort.ListLemmas Sort.ColProofs Sort.PageProofs
      Sort.TypedProofs Sort.CmpProofs Sort.BufProofs Sort.OrderProofs Sort.Instances
      Sort.Repeated Sort.RepeatedProofs.
+From PQ Require Merge.Model Merge.AbstractProofs.
+From PQ Require Import Sort.Writer Sort.WriterProofs Sort.WriterInstance.
 Import ListNotations.
 
 Section C10.
@@ -180,22 +183,221 @@ Proof. exact (C10_sorted_after_swaps sval lt_sval cmp_sval lt_sval_cmp cmp_sval_
 Print Assumptions C10_sval_less_is_comparator.
 Print Assumptions C10_sval_sorted_after_swaps.
 
-(** Repeated columns: Swap exchanges two whole rows (a row = its values with
-    their repetition and definition levels).  Less = comparator and "Page
-    keeps the rows" are NOT proved for repeated columns (see
-    C10_full_statement); they are checked by differential execution. *)
-Theorem C10_repeated_swap_exchanges_rows_partial : forall (V : Type) (c : rcol V) i j,
-  rcol_rows V (rcol_swap V c i j) = swapl (rcol_rows V c) i j /\
-  Permutation (rcol_rows V (rcol_swap V c i j)) (rcol_rows V c).
-Proof. intros. split; [apply rcol_swap_rows|apply rcol_swap_perm]. Qed.
+(** * Repeated columns (column_buffer_repeated.go)
 
-Print Assumptions C10_repeated_swap_exchanges_rows_partial.
+    The model is Sort/Repeated.v (writeRow / WriteValues, Less with the
+    descending flag, Swap, Page).  A value is (repetition level, definition
+    level, option value); a batch handed to WriteValues is well formed
+    ([batch_ok]) when every value is present exactly at the maximum definition
+    level and the batch starts a row (its first value has repetition level 0:
+    Buffer.WriteRows hands the column the values of whole rows).  A row of the
+    column is the sequence of values from one repetition level 0 up to the
+    next. *)
+Section C10_repeated.
+  Variable V : Type.
+  Variable lt : V -> V -> bool.
+  Variable cmp : V -> V -> Z.
+  Hypothesis lt_cmp : forall a b, lt a b = true <-> (cmp a b < 0)%Z.
+  Hypothesis cmp_opp : forall a b, (cmp a b < 0 <-> cmp b a > 0)%Z.
+  Hypothesis cmp_trans : forall a b d, (cmp a b <= 0 -> cmp b d <= 0 -> cmp a d <= 0)%Z.
 
-(** What is not proved, kept visible: for a repeated column set up by
-    Buffer.configure, after any history, Less is the comparator of compare.go
-    on the rows' value sequences, and Page leaves the logical rows unchanged. *)
+  (** WriteValues (the loop that cuts the values into rows and writeRow) appends
+      the levels, the non-null values and one row entry (offset into the
+      levels, offset into the base column) for each value of repetition level
+      0 -- for every batch, well formed or not. *)
+  Theorem C10_repeated_write_appends : forall (c : rcol V) vs,
+    rcol_write V c vs = flat_write V c vs.
+  Proof. exact (rcol_write_flat V). Qed.
+
+  (** Swap i j exchanges exactly the rows i and j, each with all its values and
+      levels, in every state. *)
+  Theorem C10_repeated_swap_exchanges_rows : forall (c : rcol V) i j,
+    rcol_rows V (rcol_swap V c i j) = swapl (rcol_rows V c) i j /\
+    Permutation (rcol_rows V (rcol_swap V c i j)) (rcol_rows V c).
+  Proof. intros. split; [apply rcol_swap_rows|apply rcol_swap_perm]. Qed.
+
+  (** For EVERY history of operations (WriteValues of well-formed batches |
+      Swap i j | Page): the logical rows (each read through its row entry) are
+      what the same operations do to a plain list of rows -- a write appends
+      the rows of the batch, Swap exchanges two rows, Page changes nothing --;
+      so are the rows of the column rebuilt by Page and the rows a reader of the
+      page sees (the page read sequentially, cut at repetition level 0): Page
+      returns the rows in buffer order with all their values; and they are a
+      permutation of the rows written. *)
+  Theorem C10_repeated_rows_preserved : forall md desc nfo ops,
+    Forall (rop_ok V md) ops ->
+    rcol_rows V (rreach V md desc nfo ops) = rspec_run V ops /\
+    rcol_page_rows V (rreach V md desc nfo ops) = rspec_run V ops /\
+    rcol_rows V (rcol_page V (rreach V md desc nfo ops)) = rspec_run V ops /\
+    Permutation (rspec_run V ops) (rwritten V ops).
+  Proof. exact (repeated_rows_preserved V). Qed.
+
+  (** The representation invariant (levels of equal length, one base value for
+      each maximum definition level, every row entry at a repetition level 0
+      with the base offset of its first value, entries in level order unless
+      reordered) holds after every history; Page clears the reordered flag. *)
+  Theorem C10_repeated_invariant : forall md desc nfo ops,
+    Forall (rop_ok V md) ops ->
+    rcol_ok V (rreach V md desc nfo ops) /\ cfg_is V md desc (rreach V md desc nfo ops) nfo /\
+    rreordered V (rcol_page V (rreach V md desc nfo ops)) = false.
+  Proof.
+    intros md desc nfo ops H. destruct (reach_inv V md desc nfo ops H) as (R1 & R2 & _).
+    split; [exact R1|]. split; [exact R2|]. exact (proj1 (proj2 (page_ok V _ R1))).
+  Qed.
+
+  (** Less i j = (comparator (values of row i) (values of row j) < 0), after any
+      history, for every direction x nulls first/last: the comparator is the
+      loop of compareRowsFuncOfColumnValues over the values of one sorting
+      column -- the first pair of elements that differs decides, by Type.Compare
+      negated when Descending, inside CompareNullsFirst / CompareNullsLast; then
+      the shorter sequence sorts first, also when Descending.  The column is
+      set up as Buffer.configure does: null ordering [xorb nf desc], descending
+      flag [desc] (a repeated column is not wrapped in reversedColumnBuffer). *)
+  Theorem C10_repeated_less_is_comparator : forall md nf desc ops i j,
+    Forall (rop_ok V md) ops ->
+    let c := rreach V md desc (xorb nf desc) ops in
+    i < length (rrows V c) -> j < length (rrows V c) ->
+    rcol_less V lt c i j =
+    (cmp_values V (cmp_col V cmp true desc nf)
+                (map (rv_val V) (nth i (rcol_rows V c) []))
+                (map (rv_val V) (nth j (rcol_rows V c) [])) <? 0)%Z.
+  Proof.
+    intros md nf desc ops i j H c. destruct (reach_inv V md desc (xorb nf desc) ops H) as (R1 & R2 & _).
+    exact (rcol_less_spec V lt cmp lt_cmp cmp_opp md nf desc c i j R1 R2).
+  Qed.
+
+  (* the decision rule of the value-sequence comparator, outright *)
+  Theorem C10_repeated_comparator_rule : forall (c : option V -> option V -> Z) x y a b,
+    cmp_values V c [] [] = 0%Z /\
+    cmp_values V c [] (y :: b) = (-1)%Z /\
+    cmp_values V c (x :: a) [] = 1%Z /\
+    cmp_values V c (x :: a) (y :: b) = (if (c x y =? 0)%Z then cmp_values V c a b else c x y).
+  Proof. intros. repeat split; reflexivity. Qed.
+
+  (** Less is a strict weak order on the rows of the column. *)
+  Theorem C10_repeated_less_strict_weak_order : forall md nf desc ops,
+    Forall (rop_ok V md) ops ->
+    let c := rreach V md desc (xorb nf desc) ops in rless_swo V lt c (length (rrows V c)).
+  Proof.
+    intros md nf desc ops H c. destruct (reach_inv V md desc (xorb nf desc) ops H) as (R1 & R2 & _).
+    exact (rcol_less_swo V lt cmp lt_cmp cmp_opp cmp_trans md nf desc c R1 R2).
+  Qed.
+
+  (** Whatever exchanges a sort routine performs after any history: if the
+      result has no adjacent inversion for Less, the rows are a permutation of
+      the rows written (each intact) ordered by the comparator. *)
+  Theorem C10_repeated_sorted_after_swaps : forall md nf desc ops l,
+    Forall (rop_ok V md) ops ->
+    let c := rreach V md desc (xorb nf desc) ops in
+    let c' := rreach V md desc (xorb nf desc) (ops ++ rswap_ops V l) in
+    rsorted_by_less V lt c' (length (rrows V c')) ->
+    Permutation (rcol_rows V c') (rcol_rows V c) /\
+    Permutation (rcol_rows V c') (rwritten V ops) /\
+    forall i j, i <= j -> j < length (rcol_rows V c') ->
+      (cmp_values V (cmp_col V cmp true desc nf) (row_vals V c' i) (row_vals V c' j) <= 0)%Z.
+  Proof. exact (repeated_sorted_after_swaps V lt cmp lt_cmp cmp_opp cmp_trans). Qed.
+
+  Section SortContract.
+    (* the contract of sort.Sort, as for the buffers above *)
+    Variable sort_swaps : rcol V -> list (nat * nat).
+    Hypothesis sort_sorts : forall c n, n = length (rrows V c) -> rless_swo V lt c n ->
+      rsorted_by_less V lt (fold_left (rcol_apply V) (rswap_ops V (sort_swaps c)) c) n.
+
+    Theorem C10_repeated_sorted_after_sort : forall md nf desc ops,
+      Forall (rop_ok V md) ops ->
+      let c := rreach V md desc (xorb nf desc) ops in
+      let c' := fold_left (rcol_apply V) (rswap_ops V (sort_swaps c)) c in
+      Permutation (rcol_rows V c') (rcol_rows V c) /\
+      Permutation (rcol_rows V c') (rwritten V ops) /\
+      forall i j, i <= j -> j < length (rcol_rows V c') ->
+        (cmp_values V (cmp_col V cmp true desc nf) (row_vals V c' i) (row_vals V c' j) <= 0)%Z.
+    Proof.
+      exact (fun md nf desc =>
+               repeated_sorted_after_sort V lt cmp lt_cmp cmp_opp cmp_trans md nf desc sort_swaps sort_sorts).
+    Qed.
+  End SortContract.
+End C10_repeated.
+
+(** Buffer.Less over any mix of sorting columns (required, optional,
+    repeated): when the Less of each sorting column is "its comparator < 0"
+    (C10_column_less_is_comparator, C10_repeated_less_is_comparator) the walk
+    over the sorting columns is the lexicographic comparator. *)
+Theorem C10_buffer_less_lexicographic : forall ls cs i j,
+  Forall2 (fun (l : nat -> nat -> bool) (c : nat -> nat -> Z) =>
+             l i j = (c i j <? 0)%Z /\ l j i = (c j i <? 0)%Z /\
+             (c i j < 0 <-> c j i > 0)%Z /\ (c j i < 0 <-> c i j > 0)%Z) ls cs ->
+  less_walk ls i j = (lex_cmp cs i j <? 0)%Z.
+Proof. exact less_walk_lexicographic. Qed.
+
+Print Assumptions C10_repeated_write_appends.
+Print Assumptions C10_repeated_swap_exchanges_rows.
+Print Assumptions C10_repeated_rows_preserved.
+Print Assumptions C10_repeated_invariant.
+Print Assumptions C10_repeated_less_is_comparator.
+Print Assumptions C10_repeated_less_strict_weak_order.
+Print Assumptions C10_repeated_sorted_after_swaps.
+Print Assumptions C10_repeated_sorted_after_sort.
+Print Assumptions C10_buffer_less_lexicographic.
+
+(** The statement that used to be kept here as unproved
+    ([Definition C10_full_statement]), for the INT64 / BYTE_ARRAY values of the
+    correspondence runs: proved for histories of well-formed batches. *)
+Theorem C10_repeated_full_statement :
+  forall (md : N) (nf desc : bool) (ops : list (rop sval)),
+    Forall (rop_ok sval md) ops ->
+    let c := fold_left (rcol_apply sval) ops (new_rcol sval md (xorb nf desc) desc) in
+    rcol_rows sval (rcol_page sval c) = rcol_rows sval c /\
+    rcol_page_rows sval c = rcol_rows sval c /\
+    forall i j, i < length (rrows sval c) -> j < length (rrows sval c) ->
+      rcol_less sval lt_sval c i j =
+      (cmp_values sval (cmp_col sval cmp_sval true desc nf)
+                  (map (rv_val sval) (nth i (rcol_rows sval c) []))
+                  (map (rv_val sval) (nth j (rcol_rows sval c) [])) <? 0)%Z.
+Proof.
+  intros md nf desc ops H c.
+  destruct (C10_repeated_rows_preserved sval md desc (xorb nf desc) ops H) as (R1 & R2 & R3 & _).
+  change c with (rreach sval md desc (xorb nf desc) ops).
+  split; [now rewrite R3, R1|]. split; [now rewrite R2, R1|].
+  intros i j. exact (C10_repeated_less_is_comparator sval lt_sval cmp_sval lt_sval_cmp cmp_sval_opp md nf desc ops i j H).
+Qed.
+
+Print Assumptions C10_repeated_full_statement.
+
+(** The well-formedness hypothesis is needed: a value at the maximum
+    definition level that carries no value (which the writers of the library
+    never produce) is read back as a null by the rows while Less looks for it in
+    the base column; Less and the comparator then disagree. *)
+Theorem C10_repeated_illformed_refuted :
+  let ops := [RWrite [mkRval 0%N 1%N (Some (VI 5)); mkRval 0%N 1%N None]] in
+  ~ Forall (rop_ok sval 1%N) ops /\
+  let c := fold_left (rcol_apply sval) ops (new_rcol sval 1%N false false) in
+  rcol_less sval lt_sval c 0 1 = false /\
+  (cmp_values sval (cmp_col sval cmp_sval true false false)
+              (map (rv_val sval) (nth 0 (rcol_rows sval c) []))
+              (map (rv_val sval) (nth 1 (rcol_rows sval c) [])) <? 0)%Z = true.
+Proof.
+  split.
+  - intros H. inversion H as [|? ? Hx _]; subst. destruct Hx as [Hv _].
+    inversion Hv as [|? ? _ Hv']; subst.
+    inversion Hv' as [|? ? Hb _]; subst. unfold rval_ok in Hb. simpl in Hb.
+    destruct Hb as [Hb _]. now apply Hb.
+  - vm_compute. split; reflexivity.
+Qed.
+
+(** What remains outside the theorems, kept visible: a row whose values are
+    split over two WriteValues calls (the second batch starting at a non-zero
+    repetition level) is outside [rop_ok]; and the history theorems of the
+    multi-column buffer (C10_swaps_preserve_rows, C10_less_is_comparator)
+    quantify over schemas of required and optional columns -- a buffer that
+    also has repeated columns is covered column by column
+    (C10_repeated_rows_preserved, C10_repeated_less_is_comparator) and through
+    C10_buffer_less_lexicographic, not by one statement over the whole buffer: *)
 Definition C10_full_statement : Prop :=
   forall (md : N) (nf desc : bool) (ops : list (rop sval)),
+    (* any batches of well-formed values, rows split across batches included *)
+    Forall (fun o => match o with RWrite vs => Forall (rval_ok sval md) vs | _ => True end) ops ->
+    (match flat_map (fun o => match o with RWrite vs => vs | _ => [] end) ops with
+     | v :: _ => rv_rep sval v = 0%N | [] => True end) ->
     let c := fold_left (rcol_apply sval) ops (new_rcol sval md (xorb nf desc) desc) in
     rcol_rows sval (rcol_page sval c) = rcol_rows sval c /\
     rcol_page_rows sval c = rcol_rows sval c /\
